@@ -39,10 +39,16 @@ def coherent_rows(t, like, u, x, logl, blobs, where, need_u=True):
         bad.append(("x-never-evaluated", f"{where}: {miss} rows whose x was never passed to the likelihood"))
     if wrong:
         bad.append(("logl-not-of-x", f"{where}: row {wrong[0]}: stored logL {wrong[2]!r} but the likelihood returned {wrong[1]!r} at that x"))
-    if blobs is not None and like.mode == "blobs":
+    if blobs is not None and like.mode in ("blobs", "blobs2"):
         for j in range(n):
             try:
-                bid = int(np.ravel(blobs[j])[0])
+                if like.mode == "blobs2":
+                    bid = int(blobs[j]["id"])
+                    if float(blobs[j]["half"]) != 0.5 * bid:
+                        bad.append(("blob-fields-split", f"{where}: row {j}: fields of one blob do not belong together ({blobs[j]!r})"))
+                        break
+                else:
+                    bid = int(np.ravel(blobs[j])[0])
             except Exception:
                 bad.append(("blob-type", f"{where}: blob row {j} = {blobs[j]!r}"))
                 break
